@@ -131,6 +131,10 @@ pub struct Config {
     /// oracle keeps judging.
     #[serde(default)]
     pub adopt_unexpected_upgrade: bool,
+    /// bit k set: the k-th (mod 8) subscriber created is polled with one and the same waker every
+    /// time instead of a fresh one per poll
+    #[serde(default)]
+    pub same_waker_mask: u8,
     pub teardown: u64,
 }
 
